@@ -8,6 +8,7 @@ import JanetModel.Strtod.Ldexp
 import JanetModel.Strtod.Approx
 import JanetModel.Strtod.EndToEnd
 import JanetModel.Strtod.RoundTrip
+import JanetModel.Strtod.WrapFree
 
 namespace JanetModel.Props.C13
 open JanetModel.Strtod JanetModel.Gen.Strtod
@@ -528,6 +529,57 @@ example : LibcPrinted17 (denote [48, 46, 57, 57, 57, 57, 57, 57, 57, 57, 57, 57,
   ⟨by decide +kernel, 99999999999999989, 0, 17, by decide +kernel, by decide +kernel, by decide +kernel, by decide +kernel⟩
 example : scanNumberBase [48, 46, 57, 57, 57, 57, 57, 57, 57, 57, 57, 57, 57, 57, 57, 57, 57, 56, 57] 0 = some 0x3FEFFFFFFFFFFFFF := by
   decide +kernel
+
+/-! ### wrap-freedom of the C intermediates (the C-typed model `ModelW` = the unbounded model) -/
+
+/-- ★★ `wrap_free`: the C-TYPED model of `janet_scan_number_base` (Strtod/ModelW.lean — the one the correspondence
+    harness runs against the real code: every `uint64_t carry / dividend / top53`, every `uint32_t` digit, `first_digit`,
+    `quotient`, `remainder`, `factor`, `term`, `divisor` and every `(uint32_t)` cast reduced modulo 2^width, the widths
+    REGENERATED from the declarations in strtod.c) returns on EVERY byte string and radix parameter ≤ 36 exactly what the
+    unbounded model returns.  I.e. along every accepted literal no unsigned intermediate of `bignat_muladd`, `bignat_div`,
+    `bignat_extract` ever reaches 2^64 resp. 2^32 — exactness is never lost to wrap-around — and every theorem of this
+    file about `scanNumberBase` is a theorem about `scanNumberBaseW`. -/
+theorem wrap_free (str : List Nat) (base0 : Nat) (hb : base0 ≤ 36) :
+    scanNumberBaseW str base0 = scanNumberBase str base0 :=
+  scanNumberBaseW_eq str base0 hb
+
+/-- ★ `bignat_muladd`: digits < 2^31, factor ≤ 2^31 (≥ 36^4), term < factor ⇒ `carry + (uint64_t) digit * factor` stays
+    below 2^62 + 2^31, stored digits below 2^31, appended carry below 2^31 -/
+theorem bignat_muladd_wrap_free (x : BigNat) (f term : Nat) (hf : f ≤ bigBase) (ht : term < f) (hi : MantInv x) :
+    bignat_muladdW x f term = bignat_muladd x f term :=
+  bignat_muladdW_eq x f term hf ht hi
+
+/-- ★ `bignat_div`: remainder < divisor ≤ 2^31 ⇒ `(uint64_t) remainder * BASE + digit` < 2^62 and the `(uint32_t)`
+    casts of quotient and remainder lose nothing (both < 2^31) -/
+theorem bignat_div_wrap_free (x : BigNat) (dv : Nat) (hdv : 0 < dv) (hle : dv ≤ bigBase) (hf : x.first < bigBase)
+    (hl : AllLt x.digits) : bignat_divW x dv = bignat_div x dv :=
+  bignat_divW_eq x dv hdv hle hf hl
+
+/-- ★ `bignat_extract`: with 31-bit digits `top53` stays below 2^55 through the shifts, the OR and the rounding `++` -/
+theorem bignat_extract_wrap_free (x : BigNat) (e2 : Int) (hf : x.first < bigBase) (hl : AllLt x.digits) :
+    extractPartsW x e2 = extractParts x e2 :=
+  extractPartsW_eq x e2 ⟨hf, hl⟩
+
+/-- ★ `convert` on everything the scanner hands over (both scaling chains keep the invariants) -/
+theorem convert_wrap_free (neg : Bool) (mant : BigNat) (base : Nat) (ex : Int) (hb1 : 1 ≤ base) (hb : base ≤ 36)
+    (hi : MantInv mant) : convertW neg mant base ex = convert neg mant base ex :=
+  convertW_eq neg mant base ex hb1 hb hi
+
+/-- ★ signed `int` intermediates that depend on the scanner's output: `mant->n * BIGNAT_NBIT + 16` (needs the length
+    limit: n ≤ len ≤ INT32_MAX/40), `base*base*base*base`; `_partial`: `shamt * BIGNAT_NBIT` and `2 * newn` in
+    `bignat_extra` on the negative branch are NOT covered (bounded only through the tiny short-circuit) -/
+theorem convert_int32_in_range_partial (str : List Nat) (base0 : Nat) (hb : base0 ≤ 36) (p : Parsed)
+    (h : parseNumber str base0 = some p) :
+    p.mant.digits.length * approxPerDigit + approxBias < 2 ^ 31 ∧ p.base * p.base * p.base * p.base < 2 ^ 31 ∧
+    p.base * p.base < 2 ^ 31 :=
+  convert_int32_in_range str base0 hb p h
+
+/-- non-vacuity: the C-typed model does reduce (a 64-bit carry WOULD wrap for a 33-bit factor), and on a real literal
+    it runs through the same digits as the unbounded one -/
+example : bignat_muladdW ⟨2147483647, [2147483647]⟩ 8589934591 0 ≠ bignat_muladd ⟨2147483647, [2147483647]⟩ 8589934591 0 := by
+  decide +kernel
+example : scanNumberBaseW [49, 54, 114, 49, 102, 46, 56, 38, 45, 51] 0 = scanNumberBase [49, 54, 114, 49, 102, 46, 56, 38, 45, 51] 0 :=
+  wrap_free _ _ (by decide)
 
 /-! ### non-vacuity -/
 
